@@ -177,3 +177,16 @@ Proof.
   split; [vm_compute; reflexivity|]. split; [intros i l H; discriminate H|].
   vm_compute. repeat split; reflexivity.
 Qed.
+
+(** the F-view handed to C01's executor: for W without fa, six types; A implements I only (GI is
+    gated), I's implementations in the view are A alone; with fa the view has all eight *)
+From ApiFu Require Exe.ExecData Feat.FeaturesExe.
+Example C01_view_of_W :
+  let leaf := fun (_ : name) (_ : named_type) => ExecData.NScalar ExecData.KInt in
+  map fst (ExecData.types (FeaturesExe.view leaf W [])) = map nm ["Int"; "I"; "J"; "A"; "B"; "Query"] /\
+  ExecData.lookup_type (FeaturesExe.view leaf W []) (nm "A")
+  = Some (ExecData.NObject [(nm "x", ExecData.StNamed (nm "Int"))] [nm "I"]) /\
+  ExecData.impls_of (FeaturesExe.view leaf W []) (nm "I") = [nm "A"] /\
+  List.length (ExecData.types (FeaturesExe.view leaf W [fa])) = 8%nat /\
+  FeaturesExe.view leaf (erase W []) [fa] = FeaturesExe.view leaf W [].
+Proof. vm_compute. repeat split; reflexivity. Qed.
